@@ -26,7 +26,13 @@ CAT = {'Input': (0, 0, 1, 1), 'Sum': (0, 0, 2, 1), 'Gate': (0, 0, 2, 1), 'FixedP
        'Lag': (1, None, 1, 1), 'Muskingum': (3, 3, 2, 1),
        # names related by PREFIX (output selection must match whole names): the oracle is the Go kernel itself
        'DynamicSednetGully': (12, 0, 4, 4), 'DynamicSednetGullyAlt': (12, 0, 4, 4),
-       'StorageTrapAll': (0, 1, 4, 2), 'Storage': (17, 3, 6, 4)}
+       'StorageTrapAll': (0, 1, 4, 2),
+       # models with a DIMENSION (table parameters): nParams = None, it follows from the model-wide maximum of the
+       # dimension parameter over all nodes (rows: nPts, inputAmount[max], proportion[max] / DeltaT, nLVA, 5 x [max])
+       'Storage': (None, 3, 6, 4), 'RatingCurvePartition': (None, 0, 1, 2)}
+DIMENSIONED = {'Storage', 'RatingCurvePartition'}
+# may emit NaN (math.Pow of a negative flow); a rating curve panics on NaN, so in a graph that has one these models are sinks
+NAN_SOURCES = {'DynamicSednetGully', 'DynamicSednetGullyAlt'}
 SOURCE_ONLY = {'Storage'}       # never a link destination (its inputs must stay physically meaningful); always stored inputs
 # every key of sim.Catalog (flag entries are drawn from these too)
 CATALOGUE_NAMES = ['ApplyScalingFactor', 'BankErosion', 'BaseflowFilter', 'ClimateVariables', 'ComputeProportion', 'ConstituentDecay',
@@ -37,7 +43,20 @@ CATALOGUE_NAMES = ['ApplyScalingFactor', 'BankErosion', 'BaseflowFilter', 'Clima
                    'RunoffCoefficient', 'Sacramento', 'SednetDissolvedNutrientGeneration', 'SednetParticulateNutrientGeneration',
                    'Simhyd', 'Storage', 'StorageDissolvedDecay', 'StorageParticulateTrapping', 'StorageRouting', 'StorageTrapAll',
                    'Sum', 'Surm', 'USLEFineSedimentGeneration', 'VariablePartition']
-STORAGE_TABLE = [86400.0, 3.0] + [0., 10., 20.] + [0., 1e6, 3e6] + [0., 1e5, 2e5] + [0., 0., 50.] + [0., 20., 60.]
+# level / volume / area / minimum release / maximum release tables with 2 and 3 points, and a matching initial volume
+STORAGE_TABLES = {3: ([0., 10., 20.], [0., 1e6, 3e6], [0., 1e5, 2e5], [0., 0., 50.], [0., 20., 60.], [1e6, 1.2e6, 2.5e6]),
+                  2: ([0., 10.], [0., 2e6], [0., 1e5], [0., 5.], [0., 30.], [5e5, 1e6])}
+
+
+def dim_params(rng, nm, n, nmax):
+    """parameter column of one node of a dimensioned model: its own table has n points, the rows are laid out for nmax"""
+    pad = [0.0] * (nmax - n)
+    if nm == 'RatingCurvePartition':
+        xs = [-1e12] + sorted(rng.sample([0.0, 2.0, 5.0, 20.0, 60.0, 200.0], n - 2)) + [1e12]   # covers every finite input
+        ys = [rng.choice([0.0, 0.25, 0.5, 0.75, 1.0]) for _ in range(n)]
+        return [float(n)] + xs + pad + ys + pad, []
+    lv, vol, ar, mn, mx, v0s = STORAGE_TABLES[n]
+    return [86400.0, float(n)] + lv + pad + vol + pad + ar + pad + mn + pad + mx + pad, [rng.choice(v0s), 0.0, 0.0]
 MUSK = [(1.0, 0.0, 1.0), (1.0, 0.25, 1.0), (2.0, 0.125, 2.0), (1.0, 0.5, 1.0), (3.0, 0.25, 2.0)]
 
 
@@ -59,6 +78,9 @@ def gen_case(rng, cid, big=False, split=None, force=None):
     names = rng.sample(sorted(CAT), rng.randint(2, 6 if big else 5))
     if 'Input' not in names and rng.random() < 0.8:
         names[0] = 'Input'
+    for k, must in enumerate(force.get('must', [])):
+        if must not in names:
+            names[-1 - k] = must
     rng.shuffle(names)
     lagw = rng.randint(1, 3)
     models = []
@@ -104,15 +126,23 @@ def gen_case(rng, cid, big=False, split=None, force=None):
         if not any(m['hasin'] for m in models):
             models[0]['hasin'] = 1
     for m in models:
-        if m['name'] == 'Storage' and m['N'] == 0:
+        if m['name'] in DIMENSIONED and m['N'] == 0:     # FindDimensions of an empty table panics at start-up
             g0 = rng.randrange(G)
             m['counts'][g0] += 1
             m['batches'] = [b + (1 if g >= g0 else 0) for g, b in enumerate(m['batches'])]
             m['N'] = 1
-            if T == 0:
+            if T == 0 and m['name'] == 'Storage':
                 T = 1
+    if T > 0 and not any(m['hasin'] for m in models):
+        models[0]['hasin'] = 1           # something must say how long the series are
     for m in models:
         nodes = []
+        if m['name'] in DIMENSIONED:
+            # every node has its own table size; the parameter rows are laid out for the largest one
+            choices = [2, 3] if m['name'] == 'Storage' else [2, 2, 3, 4]
+            m['dims'] = [rng.choice(choices) for _ in range(m['N'])]
+            m['dimmax'] = max(m['dims'])
+            m['np'] = (2 + 5 * m['dimmax']) if m['name'] == 'Storage' else (1 + 2 * m['dimmax'])
         for row in range(m['N']):
             nm = m['name']
             if nm == 'FixedPartition':
@@ -126,13 +156,12 @@ def gen_case(rng, cid, big=False, split=None, force=None):
             elif nm.startswith('DynamicSednetGully'):
                 p = [float(rng.randint(0, 2)), float(rng.randint(1, 3)), 1e4, rng.choice([0.5, 1.0, 2.0]), 10.0, 40.0, 1.0,
                      rng.choice([0.0, 2.0]), rng.choice([0.0, 1.0, 1.5]), 50.0, 20.0, 86400.0]
-            elif nm == 'Storage':
-                p = list(STORAGE_TABLE)
             else:
                 p = []
             s = [value(rng) for _ in range(m['ns'])]
-            if nm == 'Storage':
-                s = [rng.choice([1e6, 1.2e6, 2.5e6]), 0.0, 0.0]
+            if nm in DIMENSIONED:
+                p, s0 = dim_params(rng, nm, m['dims'][row], m['dimmax'])
+                s = s0 or s
             inp = [[(rng.choice([0.0, 0.25, 0.5, 1.0]) if (nm == 'VariablePartition' and k == 1) else
                      0.0 if (nm == 'Storage' and k >= 4) else value(rng))
                     for _ in range(T)] for k in range(m['ni'])] if m['hasin'] else None
@@ -145,6 +174,7 @@ def gen_case(rng, cid, big=False, split=None, force=None):
                 return g
     links = []
     fanin = 0
+    has_rating = any(m['name'] == 'RatingCurvePartition' for m in models)
     for di, dm in enumerate(models):
         if dm['name'] in SOURCE_ONLY:
             continue
@@ -152,7 +182,8 @@ def gen_case(rng, cid, big=False, split=None, force=None):
             dg = gen_of(dm, drow)
             if dg == 0:
                 continue
-            cands = [(si, srow) for si, sm in enumerate(models) for srow in range(sm['N']) if gen_of(sm, srow) < dg]
+            cands = [(si, srow) for si, sm in enumerate(models) for srow in range(sm['N']) if gen_of(sm, srow) < dg
+                     and not (has_rating and sm['name'] in NAN_SOURCES)]
             if not cands:
                 continue
             for dv in range(dm['ni']):
@@ -194,10 +225,19 @@ def gen_case(rng, cid, big=False, split=None, force=None):
                     ents.append(e)
             flags += [fl, ','.join(ents)]
     if rng.random() < 0.1:
-        flags.append('-v')
+        flags.append(rng.choice(['-v', '-verbose']))
+    if rng.random() < 0.04:
+        flags += ['-cpuprofile', 'cpu.prof']
+    outfile = 0 if rng.random() < 0.06 else 1
+    # where ow-sim is told to find the time series / parameters / initial states (0: structure file, 1: only in the file
+    # named by -input-timeseries / -parameters / -initial-states, 2: there, with a decoy copy in the structure file) and
+    # what is in the way of the output file (1: stale file + -overwrite, 2: stale file, no -overwrite: must refuse,
+    # 3: -overwrite with nothing to overwrite)
+    layout = force.get('layout') or (rng.choice([0, 0, 0, 1, 1, 2]), rng.choice([0, 0, 0, 1, 2]), rng.choice([0, 0, 0, 1, 2]),
+                                     rng.choice([0, 0, 0, 0, 0, 1, 1, 2, 3]) if outfile and not split else 0)
     return {'id': cid, 'T': T, 'G': G, 'models': models, 'links': links,
-            'outfile': 0 if rng.random() < 0.06 else 1, 'flags': flags, 'split': list(split or []),
-            'finalstates': 1 if rng.random() < 0.15 else 0, 'fanin': fanin}
+            'outfile': outfile, 'flags': flags, 'split': list(split or []),
+            'finalstates': 1 if rng.random() < 0.15 else 0, 'fanin': fanin, 'layout': tuple(layout)}
 
 
 
@@ -260,7 +300,10 @@ def case_tokens(c):
     for l in c['links']:
         t += ['LINK'] + [str(x) for x in l]
     t += ['OUTFILE', str(c['outfile']), 'FLAGS', str(len(c['flags']))] + c['flags']
-    t += ['SPLIT', str(len(c['split']))] + c['split'] + ['FINALSTATES', str(c['finalstates']), 'END']
+    t += ['SPLIT', str(len(c['split']))] + c['split'] + ['FINALSTATES', str(c['finalstates'])]
+    if any(c.get('layout', ())):
+        t += ['LAYOUT'] + [str(x) for x in c['layout']]
+    t.append('END')
     return t
 
 
@@ -307,6 +350,9 @@ def parse_case_tokens(toks, cid=None):
     c['split'] = [nxt() for _ in range(int(nxt()))]
     expect('FINALSTATES')
     c['finalstates'] = int(nxt())
+    c['layout'] = (0, 0, 0, 0)
+    if nxt() == 'LAYOUT':
+        c['layout'] = tuple(int(nxt()) for _ in range(4))
     c['G'] = len(c['models'][-1]['batches']) if c['models'] else 0
     c['fanin'] = 0
     return c
@@ -469,6 +515,10 @@ def main():
     n = 0 if replay else (70 if quick else 600)
     for i in range(n):
         add(gen_case(rng, 'g%04d' % i, big=(not quick and i % 3 == 0)))
+    # graphs that certainly contain a model with table parameters (per-node table sizes, several generations)
+    for i in range(0 if replay else (8 if quick else 60)):
+        add(gen_case(rng, 'd%04d' % i, force={'must': [['RatingCurvePartition'], ['Storage'], ['RatingCurvePartition', 'Storage']][i % 3],
+                                               'G': rng.choice([3, 4, 5])}))
     # wide graphs (one generation with hundreds of links into the same input series), each run several times
     # rep 0: the hooked binary (trace checked); reps 1..: the binary as shipped (no verif tag: no trace, goroutines not
     # serialised on the trace mutex), all cores; thorough: one more rep under the race detector
@@ -616,6 +666,37 @@ def main():
             c.corr_broken.append({'case': cd['id'], 'diff': 'model driver: ' + ml[:200]})
             continue
         exit_ok = r['run'].get('exit') == '0' and r['run'].get('timeout') == '0'
+        lay = cd.get('layout', (0, 0, 0, 0))
+        for k, nm_ in enumerate(('timeseries', 'parameters', 'initial_states')):
+            if lay[k]:
+                key_ = 'separate_%s_file_%s' % (nm_, 'only' if lay[k] == 1 else 'with_decoy_in_structure_file')
+                stats[key_] = stats.get(key_, 0) + 1
+        if lay[3]:
+            key_ = ['', 'stale_output_overwritten', 'stale_output_refused', 'overwrite_flag_nothing_to_overwrite'][lay[3]]
+            stats[key_] = stats.get(key_, 0) + 1
+        for fl_ in ('-v', '-verbose', '-cpuprofile'):
+            if fl_ in cd['flags']:
+                stats['flag' + fl_.replace('-', '_')] = stats.get('flag' + fl_.replace('-', '_'), 0) + 1
+        dimm = [m for m in cd['models'] if m.get('dims') and m['N'] > 0]
+        if dimm:
+            stats['dimensioned_model_cases'] = stats.get('dimensioned_model_cases', 0) + 1
+            below = 0
+            for m in dimm:
+                lo = 0
+                for b in m['batches']:
+                    if b > lo and max(m['dims'][lo:b]) < m['dimmax']:
+                        below += 1
+                    lo = b
+            if below:
+                stats['dimensioned_cases_with_a_generation_below_model_maximum'] = \
+                    stats.get('dimensioned_cases_with_a_generation_below_model_maximum', 0) + 1
+        if mo['VALID'] and lay[3] == 2:
+            # an output file is in the way and -overwrite was not given: ow-sim must refuse and leave the file alone
+            pre = [l for l in r['other'] if l.startswith('PREEXIST')]
+            if r['run'].get('exit') != '1' or not pre or 'unchanged=1' not in pre[0]:
+                c.violation('existing_output_%s.json' % cd['id'],
+                            dict(replay, kind='existing-output-file-not-protected-without-overwrite', preexist=pre))
+            continue
         if not mo['VALID']:
             # not a valid graph file (corpus only): the model must fail iff the program fails
             if (mo['MIMPL'] == 'FAIL') != (not exit_ok):
@@ -701,7 +782,13 @@ def main():
                      'Lag, Muskingum (2-5 model types, 1-5 generations (thorough: up to 8), 0-4 nodes per batch incl. empty first / '
                      'middle / last batches and models without nodes, 0-3 links per input variable from any earlier node, models '
                      'with and without stored inputs, T in {0,1,5,20}, random -outputs-for/-no-outputs-for/-inputs-for/'
-                     '-no-inputs-for/-final-states, no output file) written through io.H5Ref* into a fake-HDF5 file, run by the '
+                     '-no-inputs-for/-final-states, no output file; model pool incl. prefix-related names and the two models with '
+                     'a dimension (RatingCurvePartition nPts, Storage nLVA) with per-node table sizes spread over generations, the '
+                     'oracle decoding every parameter column with the model-wide dimension sizes; every file-layout flag: '
+                     '-input-timeseries / -parameters / -initial-states with the table only in the separate file or with a decoy '
+                     'copy left in the structure file, -overwrite over a stale output file, refusal without -overwrite, '
+                     '-v/-verbose/-cpuprofile; wide graphs with 300-600 links into the same input series run with the untagged '
+                     'binary) written through io.H5Ref* into fake-HDF5 files, run by the '
                      'real ow-sim binary under GOMAXPROCS in {1,2,4,16} with random delays at the trace points; every dataset '
                      'of the output compared bit-for-bit with (i) every node run alone through sim.Catalog (oracle), (ii) the '
                      'extracted impl_sim under the observed schedule and under the canonical one, (iii) ref_sim - the kernel '
